@@ -34,7 +34,7 @@ Theorem C02_long_equals_vs_separate :
          ps_args s1 = (s2l "--" ++ n ++ [61] ++ V) :: rest ->
          ps_args s2 = (s2l "--" ++ n) :: V :: rest ->
          res_eqv (step cfg orc root help_text s1 r) (step cfg orc root help_text s2 r).
-Proof. exact C02_long_eq_vs_separate. Qed.
+Proof. exact @C02_long_eq_vs_separate. Qed.
 Print Assumptions C02_long_equals_vs_separate.
 
 (* -xV, -x=V and -x V are interchangeable for every valid rune x *)
@@ -58,7 +58,7 @@ Theorem C02_short_spellings :
          ps_args s3 = (45 :: encode_rune c) :: V :: rest ->
          res_eqv (step cfg orc root help_text s1 r) (step cfg orc root help_text s2 r) /\
          res_eqv (step cfg orc root help_text s1 r) (step cfg orc root help_text s3 r).
-Proof. exact C02_short_forms. Qed.
+Proof. exact @C02_short_forms. Qed.
 Print Assumptions C02_short_spellings.
 
 Theorem C02_short_dispatch_eq :
@@ -74,7 +74,7 @@ Theorem C02_short_dispatch_eq :
           parse_option cfg orc help_text oc (negb (o_optional (oc_opt oc))) (Some V) s r) /\
          parse_short cfg orc help_text (encode_rune c) None s r =
          parse_option cfg orc help_text oc (negb (o_optional (oc_opt oc))) None s r.
-Proof. exact C02_short_dispatch. Qed.
+Proof. exact @C02_short_dispatch. Qed.
 Print Assumptions C02_short_dispatch_eq.
 
 (* a cluster -ab of flags is interchangeable with -a -b *)
@@ -97,6 +97,6 @@ Theorem C02_cluster_eq :
          (forall r1 : rt,
           opt_set orc (pc_nsdelim cfg) help_text oca None r = Ok (r1, None) ->
           res_eqv (step cfg orc root help_text s1 r) (two_steps cfg orc root help_text s2 r)).
-Proof. exact C02_cluster. Qed.
+Proof. exact @C02_cluster. Qed.
 Print Assumptions C02_cluster_eq.
 
